@@ -14,7 +14,9 @@ RULE = ('bounded-exhaustive strings over the 26-character delimiter alphabet (qu
         '14-character sub-alphabet), exhaustive token sequences over 22 tokens joined with and '
         'without blanks, seeded random Unicode/long inputs, valid texts from the tree generator '
         'with truncations and one-character corruptions, every prefix of short valid graph texts and of '
-        'triple conjunctions in all documented spacing styles, nesting to 200 levels. A case is '
+        'triple conjunctions in all documented spacing styles, nesting to 200 levels, characters '
+        'inserted exactly at token boundaries, conjunctions of 1100-4000 triples in every junction '
+        'style and streams of thousands of graphs. A case is '
         'non-trivial when at least one of the three entry points accepts it or it is a corruption '
         'of an accepted text; enumerated strings are distinct by construction, random ones are '
         'de-duplicated by digest.')
